@@ -9,6 +9,7 @@
 
 mod c05;
 mod c09;
+mod c19;
 mod c20;
 mod common;
 
@@ -24,6 +25,10 @@ macro_rules! with_scenario {
             }
             "C09" => {
                 type $S = c09::C09;
+                $body
+            }
+            "C19" => {
+                type $S = c19::C19;
                 $body
             }
             "C20" => {
@@ -89,6 +94,7 @@ fn main() {
             match prop {
                 "C05" => c05::check(tier),
                 "C09" => c09::check(tier),
+                "C19" => c19::check(tier),
                 "C20" => c20::check(tier),
                 _ => usage(),
             }
@@ -139,7 +145,7 @@ fn selftest_determinism(runs: u64) -> i32 {
     let seed = base_seed();
     let mut lines = vec![];
     let only = std::env::var("VERIF_ONLY").ok();
-    for prop in ["C05", "C09", "C20"] {
+    for prop in ["C05", "C09", "C19", "C20"] {
         if only.as_deref().map(|o| o != prop).unwrap_or(false) {
             continue;
         }
